@@ -1,7 +1,6 @@
-(* C13: the resolve loop when the N_active bookkeeping of reb_simulation_remove_particle cannot move particles,
-   i.e. with keep_sorted, with a tree, or with N_active <= 0 (-1 = "all particles active" is the default).
-   [*_na] are the model's definitions with the N_active component dropped; they coincide with the model under that
-   condition (loop_na below).  Used by the refinement proofs in Fixup.v. *)
+(* C13: the N_active bookkeeping of reb_simulation_remove_particle (decrement / clamp) never influences which particle
+   sits where.  [*_na] are the model's definitions with the N_active component dropped; they coincide with the model
+   for EVERY value of N_active (loop_is_na below).  Used by the refinement proofs in Fixup.v. *)
 From Coq Require Import List ZArith Bool Lia ZifyBool.
 From RV Require Import Common.Num C13.Model.
 Import ListNotations.
@@ -48,59 +47,71 @@ Fixpoint resolve_loop_na (tree keep : bool) (fx : entry -> entry) (s : St) (ps :
     else resolve_loop_na tree keep fx s ps rest
   end.
 
-(* the condition under which removing a particle never moves a second one *)
-Definition na_ok (tree keep : bool) (nact : Z) : Prop := tree = true \/ keep = true \/ nact <= 0.
-
 Lemma remove_particle_is_na tree keep nact ps k ps' nact' b :
-  na_ok tree keep nact -> remove_particle flag tree keep nact ps k = (ps', nact', b) ->
-  remove_particle_na tree keep ps k = (ps', b) /\ na_ok tree keep nact'.
+  remove_particle flag tree keep nact ps k = (ps', nact', b) -> remove_particle_na tree keep ps k = (ps', b).
 Proof.
-  unfold remove_particle, remove_particle_na, na_ok, dec_if. intros Hok H.
-  destruct ((zlen ps <=? k) || (k <? 0)) eqn:E1; [injection H as <- <- <-; auto|].
-  destruct (keep && tree) eqn:E2; [injection H as <- <- <-; auto|].
-  destruct ((zlen ps =? 1) && negb tree) eqn:E3.
-  { injection H as <- <- <-. split; [reflexivity|]. destruct Hok as [->|[->|Hn]]; auto.
-    destruct (k <? nact) eqn:E4; lia. }
-  destruct keep.
-  { injection H as <- <- <-. split; [reflexivity|]. auto. }
-  destruct tree.
-  { injection H as <- <- <-. split; [reflexivity|]. auto. }
-  destruct Hok as [Hc|[Hc|Hn]]; try discriminate.
-  destruct (k <? nact) eqn:E4; [lia|]. injection H as <- <- <-. split; [reflexivity|]. auto.
+  unfold remove_particle, remove_particle_na. intros H.
+  destruct ((zlen ps <=? k) || (k <? 0)); [injection H as <- <- <-; auto|].
+  destruct (keep && tree); [injection H as <- <- <-; auto|].
+  destruct ((zlen ps =? 1) && negb tree); [injection H as <- <- <-; auto|].
+  destruct keep; [injection H as <- <- <-; auto|].
+  destruct tree; injection H as <- <- <-; auto.
 Qed.
 
 Lemma remove_stage_is_na tree keep fx nact ps k other ps' nact' other' fx' :
-  na_ok tree keep nact -> remove_stage flag tree keep fx nact ps k other = (ps', nact', other', fx') ->
-  remove_stage_na tree keep fx ps k other = (ps', other', fx') /\ na_ok tree keep nact'.
+  remove_stage flag tree keep fx nact ps k other = (ps', nact', other', fx') ->
+  remove_stage_na tree keep fx ps k other = (ps', other', fx').
 Proof.
-  unfold remove_stage, remove_stage_na. intros Hok H.
+  unfold remove_stage, remove_stage_na. intros H.
   destruct (remove_particle flag tree keep nact ps k) as [[psx nx] b] eqn:E.
-  destruct (remove_particle_is_na _ _ _ _ _ _ _ _ Hok E) as [-> Hok'].
+  rewrite (remove_particle_is_na _ _ _ _ _ _ _ _ E).
   destruct b; injection H as <- <- <- <-; auto.
 Qed.
 
 Lemma loop_is_na tree keep : forall pend fx nact s ps s' psf naf log,
-  na_ok tree keep nact -> resolve_loop pid flag res tree keep fx nact s ps pend = (s', psf, naf, log) ->
+  resolve_loop pid flag res tree keep fx nact s ps pend = (s', psf, naf, log) ->
   resolve_loop_na tree keep fx s ps pend = (s', psf, log).
 Proof.
-  induction pend as [|e0 rest IH]; intros fx nact s ps s' psf naf log Hok H; cbn [resolve_loop resolve_loop_na] in *.
+  induction pend as [|e0 rest IH]; intros fx nact s ps s' psf naf log H; cbn [resolve_loop resolve_loop_na] in *.
   - injection H as <- <- <- <-. reflexivity.
   - destruct (fx e0) as [[p1 p2] g].
     destruct (negb (p1 =? -1) && negb (p2 =? -1)); [|eapply IH; eauto].
     destruct (res s ps (p1, p2, g)) as [[s1 psr] o].
     destruct (if Z.testbit o 0 then remove_stage flag tree keep fx nact psr p1 p2 else (psr, nact, p2, fx))
       as [[[ps1 na1] p2a] fx1] eqn:S1.
-    assert (A1 : (if Z.testbit o 0 then remove_stage_na tree keep fx psr p1 p2 else (psr, p2, fx)) = (ps1, p2a, fx1)
-                 /\ na_ok tree keep na1).
+    assert (A1 : (if Z.testbit o 0 then remove_stage_na tree keep fx psr p1 p2 else (psr, p2, fx)) = (ps1, p2a, fx1)).
     { destruct (Z.testbit o 0); [eapply remove_stage_is_na; eauto|]. injection S1 as <- <- <- <-. auto. }
-    destruct A1 as [-> Hok1].
+    rewrite A1.
     destruct (if Z.testbit o 1 then remove_stage flag tree keep fx1 na1 ps1 p2a p1 else (ps1, na1, p1, fx1))
       as [[[ps2 na2] p1x] fx2] eqn:S2.
-    assert (A2 : (if Z.testbit o 1 then remove_stage_na tree keep fx1 ps1 p2a p1 else (ps1, p1, fx1)) = (ps2, p1x, fx2)
-                 /\ na_ok tree keep na2).
+    assert (A2 : (if Z.testbit o 1 then remove_stage_na tree keep fx1 ps1 p2a p1 else (ps1, p1, fx1)) = (ps2, p1x, fx2)).
     { destruct (Z.testbit o 1); [eapply remove_stage_is_na; eauto|]. injection S2 as <- <- <- <-. auto. }
-    destruct A2 as [-> Hok2].
+    rewrite A2.
     destruct (resolve_loop pid flag res tree keep fx2 na2 s1 ps2 rest) as [[[s2 psf2] naf2] log2] eqn:HL.
-    rewrite (IH _ _ _ _ _ _ _ _ Hok2 HL). injection H as <- <- <- <-. reflexivity.
+    rewrite (IH _ _ _ _ _ _ _ _ HL). injection H as <- <- <- <-. reflexivity.
+Qed.
+
+(* N_active never exceeds N after a successful removal (the clamp of the unsorted branch; the decrement otherwise) *)
+Lemma nact_le_N tree keep nact ps k ps' nact' :
+  remove_particle flag tree keep nact ps k = (ps', nact', true) -> nact <= zlen ps -> nact' <= zlen ps'.
+Proof.
+  unfold remove_particle, dec_if. cbv zeta. intros H Hn.
+  destruct ((zlen ps <=? k) || (k <? 0)) eqn:E1; [discriminate|].
+  destruct (keep && tree); [discriminate|].
+  destruct ((zlen ps =? 1) && negb tree) eqn:E3.
+  { injection H as <- <-. unfold zlen in *. cbn [length]. destruct (k <? nact) eqn:E4; lia. }
+  destruct keep.
+  { assert (E : ps' = firstn (Z.to_nat k) ps ++ skipn (S (Z.to_nat k)) ps /\ nact' = (if k <? nact then nact - 1 else nact))
+      by (injection H; intros; subst; split; reflexivity).
+    destruct E as [-> ->]. unfold zlen in *. rewrite app_length, firstn_length, skipn_length.
+    destruct (k <? nact) eqn:E4; lia. }
+  destruct tree.
+  { injection H as <- <-. destruct (nth_error ps (Z.to_nat k)); [|exact Hn].
+    unfold zlen in *. assert (L : forall (l : list P) n x, length (upd l n x) = length l)
+      by (induction l; intros [|n] x; cbn; auto). rewrite L. exact Hn. }
+  injection H as <- <-. unfold zlen in *. rewrite firstn_length.
+  assert (L : forall (l : list P) n x, length (upd l n x) = length l) by (induction l; intros [|n] x; cbn; auto).
+  destruct (nth_error ps (length ps - 1)); [rewrite L|];
+    destruct (nact >? Z.of_nat (length ps - 1)) eqn:E4; lia.
 Qed.
 End NA.
